@@ -551,6 +551,7 @@ public:
         // no simple zip in C++, falling back to indices
         for (size_t i = 0; i < exposed.size(); ++i) {
             exposed_[i](row, col) -= exposed[i];
+            total_exposed_(row, col) -= exposed[i];
         }
 
         // Possibly reuse in the I->S removal.
@@ -743,6 +744,7 @@ public:
         // no simple zip in C++, falling back to indices
         for (size_t i = 0; i < exposed.size(); ++i) {
             exposed_[i](row, col) -= exposed[i];
+            total_exposed_(row, col) -= exposed[i];
             total_resistant += exposed[i];
         }
         infected_(row, col) -= infected;
